@@ -46,7 +46,9 @@ public:
 
   // --- observations
   bool threw() const { return threw_; }          // a refill has thrown
+  std::size_t fault_pos() const { return fault_pos_; } // file offset at which it threw
   bool seek_failed() const { return seek_failed_; }
+  std::uint64_t seek_failures() const { return seek_failures_; }
   bool write_refused() const { return write_refused_; }
   std::uint64_t refills() const { return refills_; }
   std::uint64_t seeks() const { return seeks_; }
@@ -69,6 +71,7 @@ protected:
     if (own || fault::hit(fault::underflow))
     {
       threw_ = true;
+      fault_pos_ = logical_pos();
       throw Fault{"simulated read error in underflow"};
     }
     std::size_t const pos = logical_pos();
@@ -90,6 +93,7 @@ protected:
     if (!seekable_ || fault::hit(fault::seek))
     {
       seek_failed_ = true;
+      ++seek_failures_;
       return pos_type(off_type(-1));
     }
     if ((which & std::ios_base::in) == 0)
@@ -166,7 +170,9 @@ private:
   long accept_left_ = -1;
   bool seekable_ = true;
   bool threw_ = false;
+  std::size_t fault_pos_ = 0;
   bool seek_failed_ = false;
+  std::uint64_t seek_failures_ = 0;
   bool write_refused_ = false;
   long own_refill_target_ = 0;
   long own_refill_count_ = 0;
